@@ -370,6 +370,8 @@ impl VmProc {
             env.term_out.borrow_mut().0.clear();
             env.log.borrow_mut().0.clear();
             env.term.borrow_mut().prompts.clear();
+            env.fs.borrow().writes.set(0);
+            env.recovered_errors.set(0);
         }
         let cursor_before = vm.state.env.term.borrow().cursor;
         let r = catch(|| {
